@@ -192,8 +192,12 @@ func (w *World) applyUnchecked(prev *World, b types.Block, bs consensus.V1BlockS
 		return problem("apply|panic", "ApplyBlock panicked on a block accepted by ValidateBlock: %v\n%s", p, st)
 	}
 	oldLeaves := prevCS.Elements.NumLeaves
-	if err := w.Store.Apply(au, w.Opt.HasAtt); err != nil {
-		return problem("store|diffs", "update diffs inconsistent: %v", err)
+	var serr error
+	if p, st := try(func() { serr = w.Store.Apply(au, w.Opt.HasAtt) }); p != nil {
+		return problem("proof|update-panic", "folding the ApplyUpdate into a store with up-to-date proofs panicked: %v\n%s", p, st)
+	}
+	if serr != nil {
+		return problem("store|diffs", "update diffs inconsistent: %v", serr)
 	}
 	// reference ledger from block contents
 	var eff Effects
